@@ -107,7 +107,7 @@ func c15Run(c *C10Case, w *c15World, rot int) []string {
 				if err != nil {
 					return "find:" + verdictOf(err)
 				}
-				opts := &openapi3filter.Options{MultiError: q.Multi, AuthenticationFunc: openapi3filter.NoopAuthenticationFunc}
+				opts := &openapi3filter.Options{MultiError: q.Multi, AuthenticationFunc: openapi3filter.NoopAuthenticationFunc, IncludeResponseStatus: q.Strict}
 				in := &openapi3filter.RequestValidationInput{Request: req, PathParams: pp, Route: route, Options: opts}
 				v1 := verdictOf(openapi3filter.ValidateRequest(context.Background(), in))
 				rin := &openapi3filter.ResponseValidationInput{RequestValidationInput: in, Status: q.Status, Header: http.Header(q.RHeader),
